@@ -768,3 +768,15 @@ fn alias_unique_any_state() {
         kani::cover!(e == g.short_name);
     }
 }
+
+/// must-fail twin (vacuity guard for the name-validation harnesses): claims every one-character ASCII name is accepted.
+/// Has to be refuted (':' , '/', control characters ... are rejected).
+#[kani::proof]
+#[kani::unwind(8)]
+fn twin_validate_accepts_every_ascii() {
+    let c: u8 = kani::any();
+    kani::assume(c < 0x80);
+    let b = [c];
+    let name = match core::str::from_utf8(&b) { Ok(s) => s, Err(_) => return };
+    assert!(validate_long_name::<()>(name).is_ok());
+}
